@@ -110,7 +110,8 @@ impl crate::platform::Arch for ElfLoongArch64 {
     where
         Self: std::marker::Sized,
     {
-        let mut relocation = ElfLoongArch64::relocation_from_raw(relocation_kind).unwrap();
+        // Unsupported relocation types are reported by our caller.
+        let mut relocation = ElfLoongArch64::relocation_from_raw(relocation_kind).ok()?;
         let interposable = flags.is_interposable();
 
         // All relaxations below only apply to executable code, so we shouldn't attempt them if a
